@@ -39,6 +39,11 @@ type c15Cfg struct {
 	Burst    bool `json:"syncer_stalls_then_catches_up"`
 	Grow     int  `json:"l1_blocks_per_tick"`
 	FinalLag int  `json:"finality_lag_blocks"`
+	// FailLastInject: in the last 30 ticks one more leaf appears and then none; the first injection
+	// attempt of that phase fails (sender error). A failed injection must be tried again.
+	FailLastInject bool `json:"first_injection_of_the_quiet_end_phase_fails"`
+	// MultiLeaf: some L1 blocks carry two info-tree updates (the later one is the most recent root)
+	MultiLeaf bool `json:"blocks_with_two_updates"`
 }
 
 type c15Env struct {
@@ -58,6 +63,8 @@ type c15Env struct {
 	lastQueryOK    bool
 	lastIsInj      *common.Hash
 	lastIsInjRes   bool
+	quietLeafDone  bool
+	failNextInject bool
 	injected       map[common.Hash]bool
 	injectTicks    []int
 	log            []string
@@ -92,12 +99,28 @@ func (e *c15Env) step() {
 	// L1 grows
 	for k := 0; k < e.cfg.Grow; k++ {
 		e.head++
-		if e.cfg.LeafGap > 0 && int(e.head)%e.cfg.LeafGap == 0 {
-			mer, rer := world.RandHash(g), world.RandHash(g)
-			ev := l1infotreesync.Event{UpdateL1InfoTree: &l1infotreesync.UpdateL1InfoTree{BlockPosition: 0, MainnetExitRoot: mer, RollupExitRoot: rer,
-				ParentHash: world.BlockHash(1, e.head-1), Timestamp: 1_700_000_000 + e.head}}
-			e.pendingEvents[e.head] = []any{ev}
-			e.leaves = append(e.leaves, c15Leaf{block: e.head, ger: world.GERof(mer, rer)})
+		quiet := e.cfg.FailLastInject && e.ticks > e.cfg.Ticks-30
+		leafNow := e.cfg.LeafGap > 0 && int(e.head)%e.cfg.LeafGap == 0
+		if quiet {
+			leafNow = !e.quietLeafDone
+			e.quietLeafDone = true
+			if leafNow {
+				e.failNextInject = true
+			}
+		}
+		if leafNow {
+			nUpd := 1
+			if e.cfg.MultiLeaf && g.Intn(2) == 0 {
+				nUpd = 2
+			}
+			var evs []any
+			for u := 0; u < nUpd; u++ {
+				mer, rer := world.RandHash(g), world.RandHash(g)
+				evs = append(evs, l1infotreesync.Event{UpdateL1InfoTree: &l1infotreesync.UpdateL1InfoTree{BlockPosition: uint64(3 * u), MainnetExitRoot: mer, RollupExitRoot: rer,
+					ParentHash: world.BlockHash(1, e.head-1), Timestamp: 1_700_000_000 + e.head}})
+				e.leaves = append(e.leaves, c15Leaf{block: e.head, ger: world.GERof(mer, rer)})
+			}
+			e.pendingEvents[e.head] = evs
 		}
 	}
 	if e.head > uint64(e.cfg.FinalLag) {
@@ -235,6 +258,11 @@ func (s *c15Sender) InjectGER(ctx context.Context, ger common.Hash) error {
 		e.viol = append(e.viol, fmt.Sprintf("tick %d: InjectGER(%s) but the L2 contract already has it", e.ticks, ger.Hex()[:10]))
 	}
 	e.lastIsInj = nil
+	if e.failNextInject {
+		e.failNextInject = false
+		e.note("inject %s -> injected error (first attempt of the quiet end phase)", ger.Hex()[:10])
+		return errors.New("injected sender error")
+	}
 	if e.g.Intn(100) < e.cfg.ErrPct {
 		e.note("inject %s -> injected error", ger.Hex()[:10])
 		return errors.New("injected sender error")
@@ -328,16 +356,20 @@ func c15Run(r *mon.Run, caseID string, g *rand.Rand, cfg c15Cfg) {
 			first := (cfg.FinalLag+cfg.LeafGap)/max(cfg.Grow, 1) + 2 // a finalized leaf cannot appear before
 			prev := first
 			worst := 0
-			for _, t := range append(append([]int{}, e.injectTicks...), tFreeze) {
-				if t > tFreeze {
-					t = tFreeze
+			tEnd := tFreeze
+			if cfg.FailLastInject {
+				tEnd = min(tFreeze, cfg.Ticks-30) // no new roots appear in the quiet end phase
+			}
+			for _, t := range append(append([]int{}, e.injectTicks...), tEnd) {
+				if t > tEnd {
+					t = tEnd
 				}
 				if t-prev > worst {
 					worst = t - prev
 				}
 				prev = t
 			}
-			if tFreeze > window+first && worst > window {
+			if tEnd > window+first && worst > window {
 				cls := "syncer-level"
 				if cfg.Lag > 0 {
 					cls = "syncer-stays-behind-finality"
@@ -389,7 +421,7 @@ func TestC15(t *testing.T) {
 		}
 		g := rng(r, "c15", i)
 		cfg := c15Cfg{Ticks: ticks, Lag: []int{-5, 0, 1, 2, 5, 20}[g.Intn(6)], LeafGap: 1 + g.Intn(7), ErrPct: []int{0, 0, 5, 20}[g.Intn(4)],
-			Burst: g.Intn(4) == 0, Grow: 1 + g.Intn(3), FinalLag: []int{0, 2, 10}[g.Intn(3)]}
+			Burst: g.Intn(4) == 0, Grow: 1 + g.Intn(3), FinalLag: []int{0, 2, 10}[g.Intn(3)], FailLastInject: i%3 == 0, MultiLeaf: i%2 == 0}
 		c15Run(r, caseID, g, cfg)
 	})
 	finish(t, r, r.N(20, 60), "lag=behind*", "lag=level*", "lag=ahead*")
